@@ -20,6 +20,9 @@ const (
 	evCancelResponse
 	evDrain
 	nEvents
+	// network events (enabled by NETEVENTS=1)
+	evDisconnect = nEvents     // the peer's last connection goes away: its queue is told to shut down
+	evGateOpen   = nEvents + 1 // a send that was held back on the slow connection proceeds
 )
 
 // checkDiagnostics (C23): at a quiescent point the reported request states
@@ -75,6 +78,16 @@ func VerifResp_Lifecycle() {
 	}
 	pA := peer.ID("peerA")
 	peers := []peer.ID{pA}
+	var sendGate *kit.Gate
+	if verifrt.Param("NETEVENTS", 0) == 1 {
+		alphabet = append(alphabet, evDisconnect, evGateOpen)
+		// the peer's connection is slow: a send is held back until evGateOpen
+		if verifrt.Choose("connection-slow", 2) == 1 {
+			sendGate = kit.NewGate()
+			e.S.Net.SendGate = map[peer.ID]*kit.Gate{pA: sendGate}
+			verifrt.Cover("slow-connection")
+		}
+	}
 	sent := make([]bool, nreq)
 	for r := 0; r < nreq; r++ {
 		kk := key{pA, kit.ReqID(r)}
@@ -134,10 +147,23 @@ func VerifResp_Lifecycle() {
 			Drain()
 			checkDiagnostics(e, peers, "mid")
 			desc += "drain "
+		case evDisconnect:
+			e.S.PMM.Disconnected(pA)
+			desc += "disconnect "
+			verifrt.Cover("disconnect")
+		case evGateOpen:
+			if sendGate == nil {
+				verifrt.Assume(false)
+			}
+			sendGate.Open()
+			desc += "gateopen "
 		}
 	}
 	verifrt.Event(desc)
-	// closing phase: every paused response is eventually unpaused
+	// closing phase: held-back sends proceed, every paused response is eventually unpaused
+	if sendGate != nil {
+		sendGate.Open()
+	}
 	for round := 0; round < 3; round++ {
 		Drain()
 		ps := e.RM.PeerState(pA)
